@@ -169,8 +169,11 @@ class FnModel:
         return out
 
     # ---------------------------------------------------------- evaluation
-    def worlds(self, formulas: Sequence[tuple], extra: Optional[Callable] = None) -> List[World]:
+    def worlds(self, formulas: Sequence[tuple], extra: Optional[Callable] = None,
+               touch: Sequence[tuple] = ()) -> List[World]:
         def probe(w: World):
+            for f in touch:
+                self.ev.touch(f, w)
             for f in formulas:
                 try:
                     self.ev.holds(f, w)
@@ -228,7 +231,7 @@ def equiv(m: FnModel, guards: Sequence[tuple], spec: Callable[[World, Evaluator]
     if the guards never read them (so that a dropped conjunct is noticed)."""
     ev = m.ev
     tf = [parse_formula(t) for t in touch]
-    worlds = m.worlds(list(guards) + tf)
+    worlds = m.worlds(list(guards), touch=tf)
     n = 0
     for w in worlds:
         n += 1
